@@ -10,16 +10,45 @@ func init() {
 	runners["session"] = sessionRunner
 }
 
-// sessionRunner: replayable form of a compared session. in: cfg.* fields, n, s0..s(n-1)
-func sessionRunner(c *Ctx, in map[string]string) {
-	sc := SessCfg{Nick: in["nick"], User: in["nick"], AllowFlood: true, NickCollide: in["collide"], SASL: in["sasl"], SASLUser: in["sasluser"], SASLPass: in["saslpass"],
-		DisableTracking: in["notrack"] == "1", DisableSTS: in["nosts"] == "1", SSL: in["ssl"] == "1", Version: in["version"]}
+// cfgFromIn / cfgToIn: session configs inside replayable input maps.
+func cfgFromIn(in map[string]string) SessCfg {
+	sc := SessCfg{Nick: in["nick"], User: in["nick"], AllowFlood: in["flood"] != "0", NickCollide: in["collide"], SASL: in["sasl"], SASLUser: in["sasluser"], SASLPass: in["saslpass"],
+		DisableTracking: in["notrack"] == "1", DisableSTS: in["nosts"] == "1", DisableSTSFallback: in["nofallback"] == "1", SSL: in["ssl"] == "1", Version: in["version"],
+		ServerPass: in["serverpass"], GlobalFormat: in["globalformat"] == "1"}
+	if in["webirc"] != "" {
+		sc.WebIRC = strings.Split(in["webirc"], "\x00")
+	}
+	if in["caps"] != "" {
+		sc.SupportedCaps = map[string][]string{}
+		for _, item := range strings.Split(in["caps"], "\x01") {
+			f := strings.Split(item, "\x00")
+			sc.SupportedCaps[f[0]] = f[1:]
+		}
+	}
+	return sc
+}
+
+func stepsFromIn(in map[string]string) []string {
 	var n int
 	fmt.Sscan(in["n"], &n)
 	var steps []string
 	for i := 0; i < n; i++ {
 		steps = append(steps, in[fmt.Sprintf("s%d", i)])
 	}
+	return steps
+}
+
+func stepsToIn(in map[string]string, steps []string) {
+	in["n"] = fmt.Sprint(len(steps))
+	for i, s := range steps {
+		in[fmt.Sprintf("s%d", i)] = s
+	}
+}
+
+// sessionRunner: replayable form of a compared session. in: cfg fields, n, s0..s(n-1), optional "check".
+func sessionRunner(c *Ctx, in map[string]string) {
+	sc := cfgFromIn(in)
+	steps := stepsFromIn(in)
 	cmp := c.CompareSession(sc, steps, false, false)
 	hin := hexIn(in)
 	res := cmp.Res
@@ -46,7 +75,13 @@ func sessionRunner(c *Ctx, in map[string]string) {
 			c.R.Violation("session.inv", hin, msg, "", "tracked state is structurally inconsistent")
 		}
 	}
+	if f, ok := sessionChecks[in["check"]]; ok {
+		f(c, in, hin, sc, steps, cmp)
+	}
 }
+
+// property-specific predicates evaluated on the implementation's observable behaviour
+var sessionChecks = map[string]func(c *Ctx, in, hin map[string]string, sc SessCfg, steps []string, cmp *SessCmp){}
 
 func firstLine(s string) string {
 	if i := strings.Index(s, "\n"); i >= 0 {
@@ -232,10 +267,8 @@ func runC05(c *Ctx) {
 	nick := "me"
 	base := []string{"R:srv 001 me :Welcome", "R:me!u@h JOIN #a", "R:srv 353 me = #a :me @bob +Carl"}
 	run := func(steps []string, cls string) {
-		in := map[string]string{"nick": nick, "n": fmt.Sprint(len(steps))}
-		for i, s := range steps {
-			in[fmt.Sprintf("s%d", i)] = s
-		}
+		in := map[string]string{"nick": nick}
+		stepsToIn(in, steps)
 		c.run("session", in)
 		r.Count(strings.Join(steps, "\n"), len(steps) >= 4, cls)
 		r.Traces++
